@@ -583,6 +583,25 @@ var c17Faulty = [][]string{
 	c17w("split", "(", "value", ",", "','", ")", "[", "'a'", "]", "=", "'a'"),
 	c17w("key", "+", "1", "=", "'a'"),
 	c17w("lower", "(", "int", "(", "value", ")", ")", "=", "'a'"),
+	// names written in back quotes: the token starts at the opening quote
+	c17w("`no such`", "(", "key", ")", "=", "'a'"),
+	c17w("`zz9`", "=", "'a'"),
+	c17w("upper", "(", "`nofield`", ")", "=", "'A'"),
+	c17w("`upper`", "(", "key", ",", "`x y`", ")", "=", "'A'"),
+}
+
+// c17Backquote writes function names and aliases of a statement in back quotes (same tokens for
+// the parser, other offsets inside the token)
+func c17Backquote(r *rng, lex []string) []string {
+	out := append([]string{}, lex...)
+	for i, l := range out {
+		isAlias := len(l) == 3 && l[:2] == "zq"
+		isFunc := i+1 < len(out) && out[i+1] == "(" && len(l) > 1 && l[0] >= 'a' && l[0] <= 'z' && l != "in" && l != "and" && l != "or" && l != "put" && l != "by"
+		if (isAlias || isFunc) && r.chance(2, 3) {
+			out[i] = "`" + l + "`"
+		}
+	}
+	return out
 }
 
 func (g *c17Gen) where(long bool, faulty int) []string {
@@ -954,6 +973,10 @@ func runC17Statements(c *runCtx, e *emitter) {
 			faulty = (b / 5) % len(c17Faulty)
 		}
 		lex := g.statement(long, faulty)
+		if b%4 == 2 {
+			lex = c17Backquote(r, lex)
+			e.count("statement_with_backquoted_names")
+		}
 		mode := b % 3
 		base := c17Render(lex, mode)
 		if len(base) > 70 {
@@ -1029,7 +1052,7 @@ func runC17(c *runCtx) error {
 	e.m.Exhaustive = c.thorough()
 	e.m.Notes = append(e.m.Notes,
 		"white space produced by the generators is ASCII; the lexer separates tokens at ' ' only, so statement cases use blanks (tabs/newlines appear in the renderer grid only)",
-		"token starts are those of the implementation's own Lexer.Split (whether they are the true lexeme offsets is property C16)")
+		"token starts: where the lexer twin covers the query text, those the twin computes from it (Corr/C17.v true_starts; a difference to Lexer.Split's own offsets is code 1); otherwise Lexer.Split's")
 	e.perShard = min(1500, max(150, (len(e.cases)+15)/16))
 	return e.flush()
 }
